@@ -39,3 +39,13 @@ def solverParams {V : Type} (defaults args derived : Dict V) : Dict V :=
 /-- arguments of an `add_param` function: explicit value, else current solver default, else definition default -/
 def addParamArgs {V : Type} (defn : Dict V) (defaults args : Dict V) : Dict V :=
   ⟨defn.kv.map fun kv => (kv.1, ((args.get? kv.1).or (defaults.get? kv.1)).getD kv.2)⟩
+
+
+/-- `Solver.add_structure` (parameter part): the placed component's defaults are registered in the parent under the
+names by which they are visible there (old name ↦ new name of the placement's table, other names unchanged; the
+geometry keys `R`, `w`, `pol` are not raised), with `dict.update` semantics -/
+def registerDefaults {V : Type} (m : Table) (parent child : Dict V) : Dict V :=
+  parent.overlay ⟨(child.kv.filter fun kv => !(kv.1 == "R" || kv.1 == "w" || kv.1 == "pol")).map fun kv =>
+    (match m.find? (·.2 == kv.1) with
+     | some no => no.1
+     | none => kv.1, kv.2)⟩
